@@ -20,7 +20,8 @@ EXPLANATION = (
     'therefore depends on how long the generator has been running - is a violation. C14.b: both mutators of the '
     'running time (generation and skip) advance it by exactly count x Ts (equal term normal forms), and nothing '
     'else writes it. C14.c: (DSF) the per-ray phases always match the configured shape and number of rays after '
-    'any sequence of shape changes. Not decided: sample values, |h| <= sqrt(L), zero-Doppler invariance.')
+    'any sequence of shape changes. Not decided: sample values, |h| <= sqrt(L), zero-Doppler invariance.'
+    ' General rules also applied here (see DESIGN 10.5): validate-before-commit (no `raise` reachable after the object was already changed in a public mutator); escaping attributes are only rebound, never written in place.')
 
 INT_FUNCS = {'int', 'len', 'round'}
 
